@@ -78,6 +78,19 @@ def find_field(short, field):
     return None, None
 
 
+def find_field_down(short, field):
+    """Field declared on a (declared) subclass of `short`: returns (subclass decl, type) or (None, None)."""
+    for d in CLASSES.values():
+        if d.exc or field not in d.fields:
+            continue
+        try:
+            if issubclass(d.real(), CLASSES[short].real()):
+                return d, d.fields[field]
+        except Exception:
+            continue
+    return None, None
+
+
 def is_subclass(a, b):
     return issubclass(CLASSES[a].real(), CLASSES[b].real())
 
@@ -175,7 +188,7 @@ class Predicate:
         self.name = name
         self.params = [(p.split(":")[0].strip(), parse_type(p.split(":", 1)[1])) for p in params]
         self.body = body
-        self.node = ast.parse(body.strip(), mode="eval").body
+        self.node = ast.parse("(" + body.strip() + ")", mode="eval").body
 
 
 def predicate(name, params, body):
